@@ -204,20 +204,20 @@ func applyMaven(m *Manifest, ups []result.PackageUpdate) (out Manifest, ok bool)
 			out.Pom.Mgmt = append(out.Pom.Mgmt, MDep{G: g, A: a, V: u.VersionTo})
 			continue
 		}
-		origin, _ := u.Type.GetAttr(dep.MavenDependencyOrigin)
+		// An artifact declared twice (dependencies and dependencyManagement) is reported as ONE
+		// update whose type is that of the last declaration; a faithful application of the
+		// report changes every declaration of the artifact that stands at VersionFrom.
 		hit := false
 		for _, pom := range []*Pom{out.Pom, out.Parent} {
 			if pom == nil {
 				continue
 			}
-			list := pom.Deps
-			if origin == "management" {
-				list = pom.Mgmt
-			}
-			for i := range list {
-				if list[i].G == g && list[i].A == a && interpolate(list[i].V, props) == u.VersionFrom {
-					list[i].V = u.VersionTo
-					hit = true
+			for _, list := range [][]MDep{pom.Deps, pom.Mgmt} {
+				for i := range list {
+					if list[i].G == g && list[i].A == a && interpolate(list[i].V, props) == u.VersionFrom {
+						list[i].V = u.VersionTo
+						hit = true
+					}
 				}
 			}
 		}
@@ -517,6 +517,10 @@ func features(w *World, ups []result.PackageUpdate, vulns ...[]result.Vuln) stri
 func mavenTraits(w *World, name string) []string {
 	var f []string
 	decls := 0
+	versions := map[string]bool{}
+	inFile := map[int]bool{}
+	files := 0
+	props := w.Manifest.props()
 	for i, pom := range []*Pom{w.Manifest.Pom, w.Manifest.Parent} {
 		if pom == nil {
 			continue
@@ -531,6 +535,11 @@ func mavenTraits(w *World, name string) []string {
 					continue
 				}
 				decls++
+				versions[interpolate(d.V, props)] = true
+				if !inFile[i] {
+					inFile[i] = true
+					files++
+				}
 				if i == 1 {
 					f = append(f, "declared-in-parent")
 				}
@@ -570,7 +579,16 @@ func mavenTraits(w *World, name string) []string {
 		}
 	}
 	if decls > 1 {
-		f = append(f, "dup-declaration")
+		// declared more than once: at different versions (the library's RequirementKey collision,
+		// a known finding) or at one and the same version (handled correctly by the library)
+		switch {
+		case len(versions) > 1:
+			f = append(f, "dup-declaration")
+		case files > 1:
+			f = append(f, "twice-declared-across-poms")
+		default:
+			f = append(f, "twice-declared-same-version")
+		}
 	}
 	return f
 }
